@@ -320,7 +320,23 @@ def segments(lines):
     seg, cur = {}, None
     for l in lines:
         if l.startswith("@"):
-            cur = int(l[1:] or -1)
+            try:
+                cur = int(l[1:])
+            except ValueError:
+                cur = None
+                continue
+            seg[cur] = []
+        elif cur is not None:
+            seg[cur].append(l)
+    return seg
+
+
+def segments_str(lines):
+    """like segments, with arbitrary marker strings"""
+    seg, cur = {}, None
+    for l in lines:
+        if l.startswith("@"):
+            cur = l[1:]
             seg[cur] = []
         elif cur is not None:
             seg[cur].append(l)
@@ -335,7 +351,7 @@ def oracle_check(exe, scripts):
     for name, lines in scripts:
         new = []
         for k, l in enumerate(lines):
-            if l.split()[0] in ("update", "call", "callnext", "callfinal"):
+            if l.split()[0] in ("update", "call", "callnext", "callfinal", "vcall", "vnew", "vfinal"):
                 new.append("echo %d" % k)
             new.append(l)
         tagged.append((name, new))
